@@ -111,7 +111,7 @@ class C14(framework.PropertyCheck):
                     if r < 0.4:
                         if k[0] == 'm':
                             k = rng.choice(KEYS[:8])
-                        hist.append(['seta', k, rng.choice([1, 2, 'v', [1, 2], ('sym', 'z')])])
+                        hist.append(['seta', k, rng.choice([1, 2, 'v', [1, 2], ('sym', 'z'), ['computed', 3], ['computed', 0]])])
                     elif r < 0.55:
                         if k[0] == 'm':
                             k = rng.choice(KEYS[:8])
@@ -137,7 +137,7 @@ class C14(framework.PropertyCheck):
             if rng.random() < 0.25:
                 c['computed'] = True        # xs is the result of a computation (not a quoted constant): it is a value like any other and never changes
             if op == 'catlit':
-                c['a'], c['b'], c['shape'] = rng.randint(0, 9), rng.randint(0, 9), rng.choice(['tail', 'around', 'head'])
+                c['a'], c['b'], c['shape'] = rng.randint(0, 9), rng.randint(0, 9), rng.choice(['tail', 'around', 'head', 'nested', 'nestedtail', 'appendfx'])
             if op in ('cat', 'zip'):
                 c['ys'] = self.gen_list(rng)
             if op in ('in', 'append'):
@@ -200,7 +200,9 @@ class C14(framework.PropertyCheck):
             # several probe values: every one of them must be an element
             return all(any(_eq(p, y) for y in xs) for p in [c['x']] + c.get('more', []))
         if op == 'catlit':
-            return {'tail': xs + [c['a'], c['b']], 'around': [c['a']] + xs + [c['b']], 'head': [c['a'], c['b']] + xs}[c['shape']]
+            return {'tail': xs + [c['a'], c['b']], 'around': [c['a']] + xs + [c['b']], 'head': [c['a'], c['b']] + xs,
+                    'nested': [c['a'] + c['b']] + xs, 'nestedtail': xs + [c['a'] + c['b']],
+                    'appendfx': [xs + [[1, c['a']]], 1]}[c['shape']]
         if op == 'cat':
             return xs + c['ys']
         if op == 'append':
@@ -251,7 +253,12 @@ class C14(framework.PropertyCheck):
             return '(in ' + ' '.join(q(p) for p in [c['x']] + c.get('more', [])) + ' xs)'
         if op == 'catlit':
             # several numeric literals next to a list operand: each is an element of its own
-            return {'tail': f'(+ xs {c["a"]} {c["b"]})', 'around': f'(+ {c["a"]} xs {c["b"]})', 'head': f'(+ {c["a"]} {c["b"]} xs)'}[c['shape']]
+            # ... a sum of two variables next to a list operand is one element (the inner sum is a number, not a list to splice);
+            # an appended element that is itself a list is computed once
+            return {'tail': f'(+ xs {c["a"]} {c["b"]})', 'around': f'(+ {c["a"]} xs {c["b"]})', 'head': f'(+ {c["a"]} {c["b"]} xs)',
+                    'nested': f'(let ([va {c["a"]}] [vb {c["b"]}]) (+ (+ va vb) xs))',
+                    'nestedtail': f'(let ([va {c["a"]}] [vb {c["b"]}]) (+ xs (+ va vb)))',
+                    'appendfx': f'(let ([cnt 0]) (list (append xs (do (set [cnt (+ cnt 1)]) (list cnt {c["a"]}))) cnt))'}[c['shape']]
         if op == 'cat':
             return '(+ xs ys)'
         if op == 'append':
@@ -295,7 +302,12 @@ class C14(framework.PropertyCheck):
             if h[0] == 'seta':
                 v = h[2]
                 vv = tuple(v) if isinstance(v, list) and v and v[0] == 'sym' else v
-                steps.append(('eval', 'eor', f"(do (seta {name} {key_src(k)} '{lit(vv)}) 0)"))
+                if isinstance(v, list) and v and v[0] == 'computed':
+                    # the stored value is the result of a computation (a list built by range): data like any other
+                    vv = list(range(v[1]))
+                    steps.append(('eval', 'eor', f"(do (seta {name} {key_src(k)} (range {v[1]})) 0)"))
+                else:
+                    steps.append(('eval', 'eor', f"(do (seta {name} {key_src(k)} '{lit(vv)}) 0)"))
                 d[key_str(k)] = vv
                 exps.append(('ok', 0))
             elif h[0] == 'dela':
